@@ -45,10 +45,75 @@ def kinds_returned(facts, kind_fn):
     return ks
 
 
+# Kinds a type's kind() can nominally return (it delegates to the wrapped term) but which never reach the type, because the
+# only function constructing it refuses those kinds first.  Each entry is re-verified on every run (kind_exclusion_holds).
+KIND_EXCLUSIONS = {
+    "_c14n_term::C14nTerm<T>": {
+        "kinds": {"Triple", "Variable"},
+        "crate": "sophia_c14n", "guard_fn": r"^rdfc10::relabel_with$", "guards": (r"Term>?::is_triple$", r"Term>?::is_variable$"),
+        "refusal": ("C14nError", "Unsupported"), "ctor": ("C14nTerm", "Other"),
+        "why": "relabel_with answers Err(Unsupported) for any quad with a quoted triple or a variable before it builds C14nTerm::Other",
+    },
+}
+
+
+def kind_exclusion_holds(facts, excl):
+    """(held, note): the guard function still refuses the excluded kinds, and nobody else builds the wrapper."""
+    from mirutil import bool_switch, blocks_with_agg
+    roots = [f for f in facts.fns.values() if f.crate == excl["crate"] and f.kind != "closure" and re.search(excl["guard_fn"], f.name)]
+    if len(roots) != 1:
+        return False, "guard function not found (%d)" % len(roots)
+    g = roots[0]
+    refusal = set()
+    for bi, b in enumerate(g.blocks):
+        if b.get("cleanup"):
+            continue
+        for st in b["s"]:
+            if st[0] == "=" and st[2][0] == "agg" and st[2][1].get("def", "").endswith(excl["refusal"][0]) and st[2][1].get("vname") == excl["refusal"][1]:
+                refusal.add(bi)
+    if not refusal:
+        return False, "%s no longer builds %s::%s" % (g.name, excl["refusal"][0], excl["refusal"][1])
+    for pat in excl["guards"]:
+        calls = [(bi, t) for bi, t in g.calls() if call_name_matches(t, pat)]
+        if not calls:
+            return False, "%s no longer calls %s" % (g.name, pat)
+        for bi, t in calls:
+            sw = t.get("to")
+            bs = bool_switch(g, sw) if sw is not None else None
+            if not bs or bs[0][0] != "call" or bs[0][1] is not t:
+                return False, "the result of %s is not tested directly" % pat
+            reach = g.reachable(bs[1], avoid=refusal)
+            if any(r in reach for r in g.ret_blocks()):
+                return False, "%s can return without %s when %s is true" % (g.name, excl["refusal"][1], pat)
+    for f in facts.fns.values():
+        if f.crate != excl["crate"]:
+            continue
+        if re.search(r" as std::clone::Clone>::clone$", f.name):
+            continue          # a copy of an existing value
+        for b in f.blocks:
+            for st in b["s"]:
+                if st[0] == "=" and st[2][0] == "agg" and st[2][1].get("def", "").endswith(excl["ctor"][0]) and st[2][1].get("vname") == excl["ctor"][1]:
+                    root = facts.fns.get(f.root) if f.root else f
+                    if root is not g and f is not g:
+                        return False, "%s::%s is also built in %s" % (excl["ctor"][0], excl["ctor"][1], f.name)
+    return True, excl["why"]
+
+
+def never_returns(fn):
+    return not any(r in fn.reachable(0) for r in fn.ret_blocks())
+
+
+def accessor_controls(ck, rule):
+    import core
+    ck.control(rule, "pos_always_panics (body is unimplemented!())", never_returns(core.fixture_fn("pos_always_panics")))
+    ck.control(rule, "neg_panics_for_one_kind", never_returns(core.fixture_fn("neg_panics_for_one_kind")), expect=False)
+
+
 def accessor_kind_rule(ck, facts, rule, crates=None):
     """R8.5: every impl Term overrides the accessors of every kind its kind() can return (the trait's default accessors
-    are `unimplemented!()` for that kind)."""
+    are `unimplemented!()` for that kind), and no accessor it does override is an unconditional panic."""
     n = 0
+    accessor_controls(ck, rule)
     for i in term_impls(facts):
         if crates and i["crate"] not in crates:
             continue
@@ -60,14 +125,33 @@ def accessor_kind_rule(ck, facts, rule, crates=None):
                    "%s:%s" % (i["file"], i["line"]))
             continue
         ks = kinds_returned(facts, kf)
+        excl = KIND_EXCLUSIONS.get(i["self_ty"])
+        note = ""
+        if excl:
+            held, why = kind_exclusion_holds(facts, excl)
+            if held:
+                ks = ks - excl["kinds"]
+                note = "; kinds %s excluded: %s" % (sorted(excl["kinds"]), why)
+            else:
+                ck.bad(rule, "%s@%s#exclusion-lost" % (rule, i["self_ty"]), "the audited reason why %s never holds a %s no longer "
+                       "holds: %s" % (i["self_ty"], "/".join(sorted(excl["kinds"])), why), "%s:%s" % (i["file"], i["line"]))
         missing = [(k, a) for k in sorted(ks) for a in REQUIRED[k] if a not in items]
+        diverging = []
+        for name, d in sorted(items.items()):
+            f = facts.fns.get(d)
+            if f is not None and never_returns(f):
+                diverging.append(name)
+        for name in diverging:
+            ck.bad(rule, "%s@%s::%s#always-panics" % (rule, i["self_ty"], name), "impl Term for %s: %s() never returns (its body is an "
+                   "unconditional panic): generic code asking any term of this type for %s() - atoms(), constituents(), the "
+                   "isomorphism test, assert_consistent_term_impl - aborts" % (i["self_ty"], name, name), facts.fns[items[name]].loc)
         if missing:
             ck.bad(rule, "%s@%s#accessor-missing:%s" % (rule, i["self_ty"], ",".join(a for _, a in missing)),
                    "impl Term for %s can be of kind %s but does not override %s: the default accessor panics "
                    "(unimplemented!) for that kind" % (i["self_ty"], sorted({k for k, _ in missing}), [a for _, a in missing]),
                    "%s:%s" % (i["file"], i["line"]))
-        else:
-            ck.ok(rule, "impl Term for %s: kinds %s, accessors overridden" % (i["self_ty"], sorted(ks)))
+        elif not diverging:
+            ck.ok(rule, "impl Term for %s: kinds %s, accessors overridden, none diverges%s" % (i["self_ty"], sorted(ks), note))
     return n
 
 
